@@ -9,6 +9,11 @@ def run(tier, seed):
     ns, nm = (3, 8) if tier == "quick" else (24, 28)
     tr = common.api_traces(chk, bindir, "honest", nseeds=ns, nmsgs=nm)
     n = common.validate_api(chk, tr, key_of=lambda e: "honest:" + e.get("ev", ""))
+    # rare signatures (many attempts, hint weight 0 / omega, empty hint polynomials, norm one below the bound) found among
+    # thousands of honest signatures with the attempt hook, then put through the recorded API under every pk provenance
+    hunt = common.api_traces(chk, bindir, "hunt", outdir=chk.workdir + "/hunt", n=12000 if tier == "quick" else 400000)
+    n += common.validate_api(chk, {"hunt-%d" % s: p for s, p in hunt.items()}, key_of=lambda e: "honest-rare:" + e.get("ev", ""))
+    n += common.behaviours_leg(chk, bindir, 90 if tier == "quick" else 2500)
     chk.leg("trace validation (Layer A judge)", events=n,
             grid="seeds x messages {0,1,135,136,137,4096,random} x |ctx| {0,1,32,255} x 4 modes x sk {generated, round-tripped, cloned} x pk {generated, round-tripped, derived, derived-from-round-tripped}")
     # rare keys (t leaves [0,q) before the final reduction): the public key derived from the private key must equal
